@@ -312,6 +312,15 @@ MUTATIONS = [
      'desc': 'revert of the fix: Raman gain estimated with the power before the previous amplifier\'s output VOA',
      'edits': [('gnpy/core/network.py', "input_power=pref_ch_db + dp[band_name] - voa[band_name])",
                 "input_power=pref_ch_db + dp[band_name])")]},
+    {'id': 'c15-revert-oms-ends-on-transceiver', 'props': ['C15'], 'tests': 'tests/test_spectrum_assignment.py',
+     'desc': 'revert of fix b274f498: the OMS walk only stops on a ROADM (endless on ROADM-less lines)',
+     'edits': [('gnpy/topology/spectrum_assignment.py', "                while not isinstance(nd_out, (Roadm, Transceiver)):",
+                "                while not isinstance(nd_out, Roadm):")]},
+    {'id': 'c15-revert-no-amplifier-range', 'props': ['C15'], 'tests': 'tests/test_spectrum_assignment.py',
+     'desc': 'revert of fix 0aa41bc7: network without amplifier has no frequency range',
+     'edits': [('gnpy/topology/spectrum_assignment.py', """    if not amp_bands:
+        return equipment['SI']['default'].f_min, equipment['SI']['default'].f_max
+""", "")]},
     {'id': 'c11-revert-explicit-ispart', 'props': ['C11'], 'tests': 'tests/test_path_computation_functions.py tests/test_disjunction.py',
      'desc': 'revert of fix e50d35fe: explicit route returned without checking the listed nodes are crossed in order',
      'edits': [('gnpy/topology/request.py', "    if total_path is not None and ispart(nodes_list, total_path):",
